@@ -148,7 +148,38 @@ func buildResponder(handlerType reflect.Type, rs *respondSpec) (middleware.Respo
 	return nil, "no generated responder for code " + rs.Code + " on " + key
 }
 
+func curRespHeaders(rs *respondSpec) map[string]string {
+	out := map[string]string{}
+	for k, raw := range rs.Headers {
+		var s string
+		if json.Unmarshal(raw, &s) == nil {
+			out[k] = s
+		} else {
+			out[k] = strings.Trim(string(raw), "\"")
+		}
+	}
+	return out
+}
+
 func setFromJSON(dst reflect.Value, raw json.RawMessage) error {
+	if dst.Kind() == reflect.Slice && dst.Type().Elem().Kind() == reflect.Interface {
+		if u, ok := polyUnmarshal[dst.Type().Elem().String()]; ok {
+			var parts []json.RawMessage
+			if err := json.Unmarshal(raw, &parts); err != nil {
+				return err
+			}
+			out := reflect.MakeSlice(dst.Type(), 0, len(parts))
+			for _, p := range parts {
+				v, err := u(p)
+				if err != nil {
+					return err
+				}
+				out = reflect.Append(out, reflect.ValueOf(v))
+			}
+			dst.Set(out)
+			return nil
+		}
+	}
 	if dst.Kind() == reflect.Interface {
 		// polymorphic payload or io.ReadCloser: try the registered base-type unmarshallers
 		if u, ok := polyUnmarshal[dst.Type().String()]; ok {
@@ -204,7 +235,21 @@ func installHandlers(api *operations.VfAPI) []string {
 					cur.Principal = jsonOf(args[1])
 				}
 			}
-			if curResp != nil && curResp.Code != "" {
+			if curResp != nil && curResp.Code == "raw" {
+				st, payload := curResp.Status, curResp.Payload
+				resp = middleware.ResponderFunc(func(w http.ResponseWriter, p runtime.Producer) {
+					for k, raw := range curRespHeaders(curResp) {
+						w.Header().Set(k, raw)
+					}
+					if len(payload) > 0 && string(payload) != "null" {
+						w.Header().Set("Content-Type", "application/json")
+					}
+					w.WriteHeader(st)
+					if len(payload) > 0 && string(payload) != "null" {
+						_, _ = w.Write(payload)
+					}
+				})
+			} else if curResp != nil && curResp.Code != "" {
 				r, why := buildResponder(ifaceType, curResp)
 				if r == nil {
 					if cur != nil {
